@@ -80,5 +80,170 @@ theorem C01_layerB_nonneg {cfg : Cfg} {now : Nat} {seeds : List Nat} {clients : 
     (h : Reach cfg now seeds clients b) : 0 ≤ b.g.adm.used :=
   (binv_reach h).used_nonneg
 
+/-! ## C18  lock progress -/
+
+/-- (a) the worker, owning `weight_used`, stands at `store.remove` of an eviction: its action needs no lock, is
+    enabled whatever the oracle holds, and releases `weight_used`. -/
+theorem C18_layerB_worker_holder_enabled {b : BState} (hb : BInv b) (h : b.wuOwner = some .worker) (o : Oracle) :
+    ∃ b' o', workerAct b o = .ok (b', o') ∧ b'.wuOwner = none := by
+  obtain ⟨c, e, s, i, wk, hw⟩ := hb.wuWorker.mp h
+  exact ⟨_, _, by simp only [workerAct, hw]; rfl, rfl⟩
+
+/-- (b) the sweeper, owning `weight_used`, stands at `store.remove`: enabled for every oracle, releases the lock. -/
+theorem C18_layerB_sweeper_holder_enabled {b : BState} (hb : BInv b) (h : b.wuOwner = some .sweeper) (v : Option Nat) :
+    ∃ b', sweeperAct b v = .ok b' ∧ b'.wuOwner = none := by
+  obtain ⟨n, sh, r, i, wk, hs⟩ := hb.wuSweeper.mp h
+  refine ⟨_, by simp only [sweeperAct, hs]; rfl, ?_⟩
+  unfold sweepNext; split <;> rfl
+
+/-- (c) while the sweeper owns an expiry shard, its next action is enabled — for every `visit` that names an
+    unvisited entry (and there is one) at `sweep.entry`, always at `kw.remove` and `store.remove`, and at `wu.sub`
+    unless the WORKER owns `weight_used` (who by (a) can always move on and then frees it). -/
+theorem C18_layerB_shard_holder_enabled {b : BState} (hb : BInv b) (sh : Nat) (h : b.ttlOwner = some sh) :
+    (∃ now rest, b.sw = .entry now sh rest ∧ rest ≠ [] ∧
+        ∀ id e, (id, e) ∈ rest → ∃ b', sweeperAct b (some id) = .ok b') ∨
+    (∃ now rest id, b.sw = .kwRemove now sh rest id ∧ ∀ v, ∃ b', sweeperAct b v = .ok b') ∨
+    (∃ now rest id wk, b.sw = .sub now sh rest id wk ∧
+        ((b.wuOwner = none ∧ ∀ v, ∃ b', sweeperAct b v = .ok b') ∨ b.wuOwner = some .worker)) ∨
+    (∃ now rest id wk, b.sw = .store now sh rest id wk ∧ ∀ v, ∃ b', sweeperAct b v = .ok b') := by
+  have hsh := hb.ttlSweeper.2 sh h
+  cases hs : b.sw with
+  | begin => simp [hs, SPc.shard?] at hsh
+  | fin => simp [hs, SPc.shard?] at hsh
+  | entry now sh' rest =>
+    simp only [hs, SPc.shard?, Option.some.injEq] at hsh; subst hsh
+    refine Or.inl ⟨now, rest, rfl, hb.sweepEntry _ _ _ hs, ?_⟩
+    intro id e hmem
+    have hsome : (rest.find? (fun p => p.1 == id)).isSome = true := by
+      rw [List.find?_isSome]; exact ⟨(id, e), hmem, by simp⟩
+    simp only [sweeperAct, hs]
+    cases hf : rest.find? (fun p => p.1 == id) with
+    | none => rw [hf] at hsome; cases hsome
+    | some p =>
+      obtain ⟨p1, p2⟩ := p
+      simp only []
+      split <;> exact ⟨_, rfl⟩
+  | kwRemove now sh' rest id =>
+    simp only [hs, SPc.shard?, Option.some.injEq] at hsh; subst hsh
+    refine Or.inr (Or.inl ⟨now, rest, id, rfl, ?_⟩)
+    intro v
+    simp only [sweeperAct, hs]
+    split <;> exact ⟨_, rfl⟩
+  | sub now sh' rest id wk =>
+    simp only [hs, SPc.shard?, Option.some.injEq] at hsh; subst hsh
+    refine Or.inr (Or.inr (Or.inl ⟨now, rest, id, wk, rfl, ?_⟩))
+    cases ho : b.wuOwner with
+    | none =>
+      refine Or.inl ⟨rfl, fun v => ?_⟩
+      simp only [sweeperAct, hs, wuFree, ho]
+      exact ⟨_, rfl⟩
+    | some t =>
+      cases t with
+      | worker => exact Or.inr rfl
+      | sweeper =>
+        obtain ⟨_, _, _, _, _, h'⟩ := hb.wuSweeper.mp ho
+        rw [hs] at h'; cases h'
+      | consumer => exact absurd ho (hb.wuClients 0).2
+      | client i => exact absurd ho (hb.wuClients i).1
+  | store now sh' rest id wk =>
+    simp only [hs, SPc.shard?, Option.some.injEq] at hsh; subst hsh
+    refine Or.inr (Or.inr (Or.inr ⟨now, rest, id, wk, rfl, fun v => ?_⟩))
+    simp only [sweeperAct, hs]
+    exact ⟨_, rfl⟩
+
+/-- C18 at action granularity: the three parts together. -/
+theorem C18_layerB_lock_progress {b : BState} (hb : BInv b) :
+    (b.wuOwner = some .worker → ∀ o, ∃ r, workerAct b o = .ok r) ∧
+    (b.wuOwner = some .sweeper → ∀ v, ∃ b', sweeperAct b v = .ok b') ∧
+    (∀ sh, b.ttlOwner = some sh →
+      (∃ v b', sweeperAct b v = .ok b') ∨
+      (b.wuOwner = some .worker ∧ ∀ o, ∃ b1 o1, workerAct b o = .ok (b1, o1) ∧ b1.wuOwner = none)) := by
+  refine ⟨?_, ?_, ?_⟩
+  · intro h o
+    obtain ⟨b', o', h', _⟩ := C18_layerB_worker_holder_enabled hb h o
+    exact ⟨_, h'⟩
+  · intro h v
+    obtain ⟨b', h', _⟩ := C18_layerB_sweeper_holder_enabled hb h v
+    exact ⟨_, h'⟩
+  · intro sh h
+    rcases C18_layerB_shard_holder_enabled hb sh h with ⟨now, rest, hs, hne, hall⟩ | ⟨_, _, _, _, hall⟩ |
+      ⟨_, _, _, _, _, ⟨_, hall⟩ | hw⟩ | ⟨_, _, _, _, _, hall⟩
+    · cases rest with
+      | nil => exact absurd rfl hne
+      | cons p rest =>
+        obtain ⟨b', h'⟩ := hall p.1 p.2 (by simp)
+        exact Or.inl ⟨_, _, h'⟩
+    · obtain ⟨b', h'⟩ := hall none; exact Or.inl ⟨_, _, h'⟩
+    · obtain ⟨b', h'⟩ := hall none; exact Or.inl ⟨_, _, h'⟩
+    · exact Or.inr ⟨hw, C18_layerB_worker_holder_enabled hb hw⟩
+    · obtain ⟨b', h'⟩ := hall none; exact Or.inl ⟨_, _, h'⟩
+
+/-- No cycle of lock waits, at any reachable state of any interleaving:
+    * the owner of `weight_used` is the worker at `evStore` or the sweeper at `store` — never a client, never the
+      consumer — and the action it stands at takes no lock at all (it is enabled unconditionally);
+    * the owner of an expiry-shard lock (the sweeper) waits, if at all, for `weight_used` held by the WORKER,
+      which by the first point waits for nothing. -/
+theorem C18_layerB_no_lock_wait_cycle {cfg : Cfg} {now : Nat} {seeds : List Nat} {clients : Nat} {b : BState}
+    (h : Reach cfg now seeds clients b) :
+    (b.wuOwner = some .worker → (∃ c e s i wk, b.w = .evStore c e s i wk) ∧ ∀ o, ∃ r, workerAct b o = .ok r) ∧
+    (b.wuOwner = some .sweeper → (∃ n sh r i wk, b.sw = .store n sh r i wk) ∧ ∀ v, ∃ b', sweeperAct b v = .ok b') ∧
+    (∀ i, b.wuOwner ≠ some (.client i)) ∧ b.wuOwner ≠ some .consumer ∧
+    (∀ sh, b.ttlOwner = some sh → (∀ v, sweeperAct b v = .error "not enabled: weight_used is locked") →
+      b.wuOwner = some .worker) := by
+  have hb := binv_reach h
+  obtain ⟨h1, h2, h3⟩ := C18_layerB_lock_progress hb
+  refine ⟨fun h => ⟨hb.wuWorker.mp h, h1 h⟩, fun h => ⟨hb.wuSweeper.mp h, h2 h⟩, fun i => (hb.wuClients i).1,
+    (hb.wuClients 0).2, ?_⟩
+  intro sh hsh hblocked
+  rcases h3 sh hsh with ⟨v, b', h'⟩ | ⟨hw, _⟩
+  · rw [hblocked v] at h'; cases h'
+  · exact hw
+
+/-- how many sweeper actions are left before the shard lock is dropped -/
+def swMeasure : SPc → Nat
+  | .entry _ _ rest => 4 * rest.length
+  | .kwRemove _ _ rest _ => 4 * rest.length + 3
+  | .sub _ _ rest _ _ => 4 * rest.length + 2
+  | .store _ _ rest _ _ => 4 * rest.length + 1
+  | _ => 0
+
+/-- The shard lock is held for a bounded number of sweeper actions: every sweeper action taken while a shard is
+    owned either drops the lock or strictly lowers `swMeasure` (so no client waits for ever for a shard lock,
+    given that the sweeper is scheduled — and by `C18_layerB_shard_holder_enabled` it is never blocked for good). -/
+theorem C18_layerB_shard_lock_bounded {b b' : BState} {v : Option Nat} {sh : Nat} (hb : BInv b)
+    (hown : b.ttlOwner = some sh) (h : sweeperAct b v = .ok b') :
+    b'.ttlOwner = none ∨ (b'.ttlOwner = some sh ∧ swMeasure b'.sw < swMeasure b.sw) := by
+  have hsh := hb.ttlSweeper.2 sh hown
+  have hfilter : ∀ (rest : List (Nat × Nat)) (id : Nat) (p : Nat × Nat),
+      rest.find? (fun p => p.1 == id) = some p → (rest.filter (fun p => p.1 != id)).length < rest.length := by
+    intro rest id p hf
+    rw [List.length_filter_lt_length_iff_exists]
+    exact ⟨p, List.mem_of_find?_eq_some hf, by simpa using List.find?_some hf⟩
+  have ht := sweeperAct_trans h
+  cases ht with
+  | begin _ hs => simp [hs, SPc.shard?] at hsh
+  | fin hs => simp [hs, SPc.shard?] at hsh
+  | entryExpired now shard rest id p hf hs =>
+    have := hfilter rest id p hf
+    exact Or.inr ⟨hown, by simp only [hs, swMeasure]; omega⟩
+  | entryKeep now shard rest id p hf hs =>
+    have := hfilter rest id p hf
+    unfold sweepNext
+    split
+    · exact Or.inl rfl
+    · exact Or.inr ⟨hown, by simp only [hs, swMeasure]; omega⟩
+  | kwRemoveSome now shard rest id wk hg hs => exact Or.inr ⟨hown, by simp only [hs, swMeasure]; omega⟩
+  | kwRemoveNone now shard rest id hg hs =>
+    unfold sweepNext
+    split
+    · exact Or.inl rfl
+    · exact Or.inr ⟨hown, by simp only [hs, swMeasure]; omega⟩
+  | sub now shard rest id wk hf hs => exact Or.inr ⟨hown, by simp only [hs, swMeasure]; omega⟩
+  | store now shard rest id wk hs =>
+    unfold sweepNext
+    split
+    · exact Or.inl rfl
+    · exact Or.inr ⟨hown, by simp only [hs, swMeasure]; omega⟩
+
 end B
 end Cached
